@@ -668,4 +668,28 @@ theorem applyMOpts_flags (base : Opts) (l : List MOpt) :
 
 example : (applyMOpts {} [.opaqueKeys, .canonLower, .opaqueKeys]).canon = true ∧ (applyMOpts {} [.opaqueKeys]).canon = false := by decide
 
+/-! ### round 5: the scalar layer at full strength for the fixed conversion -/
+/-- FULL scalar layer for the code with fixes/C17-float32-single-rounding.patch (`two = false`: the literal is rounded
+once, to the width of the field): EVERY primitive kind, float32 included, no hypothesis on the width.  The `_partial`
+statement above is what holds for the pinned conversion (`two = true`), where float32 is the counterexample
+`float32_double_rounding`. -/
+theorem agrees_with_std_json_scalar_fixed (p : Prim) (v : J) (a b : Val)
+    (hu : fillPrim false p v = .ok a) (hs : stdPrim p v = .ok b) : a = b := by
+  cases v with
+  | num lit =>
+    cases p with
+    | float n => simp only [fillPrim, stdPrim, convFromString] at hu hs; rw [hu] at hs; injection hs
+    | int n => simp only [fillPrim, stdPrim] at hu hs; rw [hu] at hs; injection hs
+    | uint n => simp only [fillPrim, stdPrim] at hu hs; rw [hu] at hs; injection hs
+    | bool => simp [fillPrim] at hu
+    | string => simp [fillPrim] at hu
+  | bool x => simp only [fillPrim, stdPrim] at hu hs; rw [hu] at hs; injection hs
+  | str x => simp only [fillPrim, stdPrim] at hu hs; rw [hu] at hs; injection hs
+  | null => simp [fillPrim] at hu
+  | nilArr => simp [fillPrim] at hu
+  | arr l => simp [fillPrim] at hu
+  | obj m => simp [fillPrim] at hu
+
+example : fillPrim false (.float 32) (.num "1.5".toList) = stdPrim (.float 32) (.num "1.5".toList) := by
+  simp [fillPrim, stdPrim, convFromString]
 end GoZero.C17
